@@ -93,17 +93,20 @@ class _frame_iterator:
     def ensures(e): return {}
 
 
-def content_hint(src: Any) -> Any:
-    """the framing hint of the first three bytes of the source's *content* (not of what some read happened to return)"""
-    return hint_formula(src.data)
+def classified_as_laid_out(src: Any, decision: Any) -> Any:
+    """for every way the content can be laid out as a Jelly stream (either framing, any frame length L and first-row length
+    rowlen - the premise of C08's lemma, universally quantified: gd/L/rowlen are free constants), the decision taken is
+    that framing.  Deliberately *not* the boolean formula of delimited_jelly_hint: any hint that is right on the headers
+    real streams can start with is as good."""
+    gd, L, rowlen = z3.Bool("gd$c09"), z3.Int("L$c09"), z3.Int("rowlen$c09")
+    return Implies(stream_header(src.data, gd, L, rowlen), decision == gd)
 
 
 @contract(f"{PIO}:get_options_and_frames", serves=["C09", "C08", "C10"])
 class _get_options_and_frames:
-    """C09: whether a stream is read as delimited depends only on its first three bytes - not on how the source chunks
-    its reads.  Proved for seekable sources (read(3) is exact); for non-seekable sources the decision is taken on
-    `BufferedReader.peek(3)`, which may legally return fewer than three bytes: that clause carries the known-finding
-    label (D5) and is reported from the list."""
+    """C09: a stream laid out in either framing is classified by its content - not by how the source chunks its reads.
+    Proved for seekable sources (read(3) is exact) and for non-seekable ones whenever `BufferedReader.peek(3)` delivered
+    three bytes; peek may legally return fewer: that clause carries the known-finding label (D5), reported from the list."""
     params = {"inp": Sort("bytesrc", True)}
     variants = [{"inp": Sort("bytesrc", True)}, {"inp": Sort("bytesrc", False)}]
     result = Sort("anyval")
@@ -119,11 +122,11 @@ class _get_options_and_frames:
         opts = e.result.items[0]
         delimited = opts.items[2].delimited
         src = e.old.inp
-        same = delimited == content_hint(src)
+        same = classified_as_laid_out(src, delimited)
         if src.seekable:
-            return {"framing-decided-by-the-first-three-content-bytes": same}
+            return {"classified-as-laid-out-whatever-the-chunking": same}
         n = src.data.len
         enough = e.inp.peeked >= z3.If(n < 3, n, 3)      # the peek delivered the first three bytes (or all there is)
-        return {"framing-decided-by-the-first-three-content-bytes": Implies(enough, same),
+        return {"classified-as-laid-out-whatever-the-chunking": Implies(enough, same),
                 # D5: BufferedReader.peek(3) may deliver fewer bytes than are available
-                "framing-decided-by-the-first-three-content-bytes@nonseekable-short-peek": Implies(Not(enough), same)}
+                "classified-as-laid-out-whatever-the-chunking@nonseekable-short-peek": Implies(Not(enough), same)}
